@@ -487,12 +487,23 @@ func (x *exec) merge(ins []incoming, label string) *State {
 	sort.Slice(allocs, func(i, j int) bool { return allocs[i].Pos() < allocs[j].Pos() || allocs[i].Pos() == allocs[j].Pos() && allocs[i].Name() < allocs[j].Name() })
 	for _, a := range allocs {
 		var vs []*Val
+		var have *Val
+		for _, in := range ins {
+			if v, has := in.st.cells[a]; has {
+				have = v
+			}
+		}
 		ok := true
 		for _, in := range ins {
 			v, has := in.st.cells[a]
 			if !has {
-				ok = false // not yet allocated on that path: dead there
-				break
+				// not declared on that path (the variable is dead there): an arbitrary value, so that
+				// postconditions may still mention the variable on the paths where it exists
+				if have == nil || have.T == "" || have.Typ == nil || have.SetSort != "" {
+					ok = false
+					break
+				}
+				v = x.mkVal(x.c.FreshConst("undecl."+a.Comment, x.c.SortOf(have.Typ)), have.Typ)
 			}
 			vs = append(vs, v)
 		}
